@@ -4,6 +4,7 @@ import (
 	"encoding/binary"
 	"fmt"
 	"sort"
+	"strings"
 
 	wire "github.com/jeroenrinzema/psql-wire"
 	"github.com/lib/pq/oid"
@@ -77,6 +78,16 @@ func c14gen(rng *core.Rng, small bool) c14table {
 		for i, o := range t.OIDs {
 			if rng.Intn(100) >= nullPct {
 				v := genValue(rng, o)
+				if rng.Intn(12) == 0 && (o == pg.OIDBytea || o == pg.OIDText || o == pg.OIDVarchar) {
+					// a value that looks like the start of a COPY file (signature + flags + extension length)
+					blob := append(append([]byte{}, c14header...), rng.Bytes(rng.Intn(12))...)
+					if o == pg.OIDBytea {
+						v = blob
+					} else {
+						v = strings.ReplaceAll(string(blob), "\x00", "0")
+						v = strings.ToValidUTF8(v.(string), "?")
+					}
+				}
 				if s, ok := v.(string); ok && len(s) > 300 {
 					v = s[:len(s)%300]
 				}
